@@ -444,6 +444,19 @@ Theorem C08_multi_view_exact :
 Proof. exact mstep_view. Qed.
 Print Assumptions C08_multi_view_exact.
 
+(* the shared command channel of a connection (ProtocolSet::rx behind the ConnectionHandles of all
+   protocols) loses nothing: as long as the connection is not reported closed, the commands its
+   connection task has taken with next(), followed by what is still queued, are exactly the
+   OpenSubstream / ForceClose commands the services issued for it, in the order they were issued.
+   With C09_multi_next_none_iff (next() returns None only on an empty queue) every accepted open
+   reaches the connection task before the task can end. *)
+Theorem C08_multi_commands_fifo :
+  forall tr m c,
+  forallb (fun de => negb (closes c (snd de))) tr = true ->
+  taken c tr (mrun m tr) ++ qfind c (m_q (mfinal m tr)) = qfind c (m_q m) ++ issued c (mrun m tr).
+Proof. exact queue_conservation. Qed.
+Print Assumptions C08_multi_commands_fifo.
+
 (* non-vacuity: two services, command channel of capacity 1: the second open meets a full channel
    (ChannelClogged) and draws an identifier all the same; the connection task takes the first
    command, a third open is accepted with the next identifier *)
